@@ -59,6 +59,13 @@ def is_immutable_value(prog, mod: Module, e: Optional[ast.expr]) -> bool:
                      'namedtuple', 'compile'):
             return True
         sym = prog.resolve_expr_symbol(mod, e.func)
+        if fname == 'MappingProxyType' and len(e.args) == 1 and isinstance(e.args[0], ast.Dict):
+            d = e.args[0]
+            return all(k is not None and is_immutable_value(prog, mod, k) for k in d.keys) and \
+                all(is_immutable_value(prog, mod, v) for v in d.values)
+        if isinstance(sym, ClassInfo) and any(str(b).split('.')[-1] == 'NamedTuple' for b in sym.bases):
+            return all(is_immutable_value(prog, mod, a) for a in e.args) and \
+                all(is_immutable_value(prog, mod, k.value) for k in e.keywords)
         if isinstance(sym, ClassInfo) and sym.is_dataclass and sym.frozen:
             # a frozen dataclass instance is immutable if its arguments are
             return all(is_immutable_value(prog, mod, a) for a in e.args) and \
@@ -71,6 +78,42 @@ READONLY_METHODS = {'get', 'keys', 'values', 'items', 'index', 'count', 'copy', 
                     'issubset', 'issuperset', 'isdisjoint', '__contains__', '__getitem__', '__len__', '__iter__'}
 
 
+def _param_only_read(prog, mod: Module, call: ast.Call, idx: int, depth: int = 0) -> bool:
+    """The callee is a package function and its parameter number `idx` is only read (looked up, iterated, tested)."""
+    sym = prog.resolve_expr_symbol(mod, call.func) if isinstance(call.func, (ast.Name, ast.Attribute)) else None
+    if not isinstance(sym, FuncInfo) or depth > 2:
+        return False
+    params = [a.arg for a in sym.params()]
+    if sym.cls is not None and not sym.is_static and params[:1] in (['self'], ['cls']) and isinstance(call.func, ast.Attribute):
+        params = params[1:]
+    if idx >= len(params):
+        return False
+    pname = params[idx]
+    for node in ast.walk(sym.node):
+        if not (isinstance(node, ast.Name) and node.id == pname):
+            continue
+        if isinstance(node.ctx, (ast.Store, ast.Del)):
+            return False
+        par = prog.parent(node)
+        if isinstance(par, ast.Subscript) and par.value is node and isinstance(par.ctx, ast.Load):
+            continue
+        if isinstance(par, ast.Compare) and node in par.comparators and all(isinstance(o, (ast.In, ast.NotIn)) for o in par.ops):
+            continue
+        if isinstance(par, (ast.For, ast.comprehension)) and par.iter is node:
+            continue
+        if isinstance(par, ast.Call) and isinstance(par.func, ast.Name) and par.func.id in ('len', 'sorted', 'iter', 'any', 'all', 'isinstance') \
+                and node in par.args:
+            continue
+        if isinstance(par, ast.Attribute) and par.value is node and par.attr in READONLY_METHODS and isinstance(prog.parent(par), ast.Call):
+            continue
+        if isinstance(par, ast.arg):
+            continue
+        if isinstance(par, ast.Call) and node in par.args and _param_only_read(prog, sym.module, par, par.args.index(node), depth + 1):
+            continue
+        return False
+    return True
+
+
 def readonly_table(prog, mod: Module, stmt: ast.stmt) -> Optional[str]:
     """A module-level container display that is a constant table: its elements are immutable (constants, functions,
     classes, enum members) and every use of its name anywhere in the package only reads it (subscript load, membership,
@@ -80,6 +123,9 @@ def readonly_table(prog, mod: Module, stmt: ast.stmt) -> Optional[str]:
     if len(targets) != 1 or not isinstance(targets[0], ast.Name):
         return None
     name = targets[0].id
+    if isinstance(val, ast.Call) and getattr(val.func, 'id', getattr(val.func, 'attr', '')) == 'MappingProxyType' and \
+            len(val.args) == 1 and isinstance(val.args[0], ast.Dict):
+        val = val.args[0]          # a read-only view of a dict display that nothing else refers to
     if isinstance(val, ast.Dict):
         leaves = [k for k in val.keys if k is not None] + list(val.values)
         if any(k is None for k in val.keys):
@@ -120,6 +166,8 @@ def readonly_table(prog, mod: Module, stmt: ast.stmt) -> Optional[str]:
                 continue
             if isinstance(par, ast.alias) or isinstance(par, ast.ImportFrom):
                 continue
+            if isinstance(par, ast.Call) and node in par.args and _param_only_read(prog, m, par, par.args.index(node)):
+                continue        # handed to a helper of the package that only looks things up in it
             return None
     return f'constant table: immutable elements, {n_uses} read-only uses, never written, aliased or passed on'
 
